@@ -38,6 +38,7 @@ func modifyRequest(outReq *http.Request) {
 	outReq.URL.Path = u.Path
 	outReq.URL.RawPath = u.RawPath
 	outReq.URL.RawQuery = u.RawQuery
+	outReq.URL.ForceQuery = u.ForceQuery
 	outReq.RequestURI = "" // Outgoing request should not have RequestURI
 
 	outReq.Proto = "HTTP/1.1"
